@@ -18,10 +18,12 @@ import (
 	"syscall"
 	"time"
 
+	"github.com/coreos/etcd/raft/raftpb"
 	"github.com/ethereum/go-ethereum/event"
 	"github.com/libp2p/go-libp2p-core/peer"
 	peermgr "github.com/meshplus/bitxhub-core/peer-mgr"
 	"github.com/meshplus/bitxhub-model/pb"
+	raftproto "github.com/meshplus/bitxhub/pkg/order/etcdraft/proto"
 	"github.com/meshplus/bitxhub/pkg/order/syncer"
 	"github.com/meshplus/bitxhub/verif/vlog"
 )
@@ -196,10 +198,32 @@ type ordNet struct {
 	lag        int
 	timed      bool
 	feedhub    bool // the replicas run the node's real feed hub between order layer and executor
+	propLoss   bool // half of the forwarded proposals (raft MsgProp) are lost
 	typ        string
 	n          int
 	batch      int
 	base       string
+}
+
+// raftKindOf names the raft message inside a peer message of the order layer ("" if it is none).
+func raftKindOf(b64 string) string {
+	raw, err := base64.StdEncoding.DecodeString(b64)
+	if err != nil {
+		return ""
+	}
+	pm := &pb.Message{}
+	if pm.Unmarshal(raw) != nil || pm.Type != pb.Message_CONSENSUS {
+		return ""
+	}
+	rm := &raftproto.RaftMessage{}
+	if rm.Unmarshal(pm.Data) != nil || rm.Type != raftproto.RaftMessage_CONSENSUS {
+		return ""
+	}
+	msg := &raftpb.Message{}
+	if msg.Unmarshal(rm.Data) != nil {
+		return ""
+	}
+	return msg.Type.String()
 }
 
 func (nw *ordNet) count(k string) { nw.mu.Lock(); nw.stats[k]++; nw.mu.Unlock() }
@@ -231,6 +255,15 @@ func (nw *ordNet) route(from uint64, m *wireMsg) {
 	iso := nw.isolated[from] || nw.isolated[m.To]
 	drop := nw.rng.Float64() < nw.dropP
 	dup := nw.rng.Float64() < nw.dupP
+	// what kind of raft message is it (counted; scenarios with propLoss lose half of the forwarded proposals -
+	// what a deposed leader that still cuts batches sends to its successor)
+	if kind := raftKindOf(m.Data); kind != "" {
+		nw.stats["raft_msg:"+kind]++
+		if kind == "MsgProp" && nw.propLoss && nw.rng.Intn(2) == 0 {
+			drop = true
+			nw.stats["forwarded_proposals_lost"]++
+		}
+	}
 	delay := time.Duration(0)
 	if nw.maxDelay > 0 {
 		delay = time.Duration(nw.rng.Int63n(int64(nw.maxDelay)))
@@ -423,6 +456,10 @@ func ordScenario(w *vlog.W, a *wargs, id int, rng *rand.Rand, viol func(sig, det
 	if nw.feedhub {
 		w.Count("scenario:through-real-feed-hub", 1)
 	}
+	nw.propLoss = typ == "raft" && rng.Intn(3) == 0
+	if nw.propLoss {
+		w.Count("scenario:forwarded-proposals-lost", 1)
+	}
 	nw.maxDelay = time.Duration(rng.Intn(15)) * time.Millisecond
 	for i := 1; i <= n; i++ {
 		nw.children[uint64(i)] = &ordChild{id: uint64(i), dir: filepath.Join(base, fmt.Sprintf("node%d", i))}
@@ -466,6 +503,37 @@ func ordScenario(w *vlog.W, a *wargs, id int, rng *rand.Rand, viol func(sig, det
 		allTx = append(allTx, raw)
 		sendRaw(raw)
 	}
+	// a client signs a few transactions of one account in one go, the later nonces first: their timestamps run
+	// against their nonces, and all of them reach one node together
+	submitInverted := func() {
+		acct := rng.Intn(3)
+		k := 2 + rng.Intn(3)
+		base := time.Now().UnixNano()
+		var raws []string
+		for i := 0; i < k; i++ {
+			tx := &pb.BxhTransaction{From: poolAcctAddr(acct), To: poolAcctAddr(99), Nonce: nextNonce[acct], Timestamp: base - int64(i)*1000, Payload: []byte(fmt.Sprintf("c%d-inv", id))}
+			nextNonce[acct]++
+			tx.TransactionHash = tx.Hash()
+			submitted[tx.GetHash().String()] = true
+			b, _ := tx.MarshalWithFlag()
+			raw := base64.StdEncoding.EncodeToString(b)
+			allTx = append(allTx, raw)
+			raws = append(raws, raw)
+		}
+		alive := []uint64{}
+		for i := 1; i <= n; i++ {
+			if c := nw.children[uint64(i)]; c != nil && c.isAlive() {
+				alive = append(alive, uint64(i))
+			}
+		}
+		if len(alive) == 0 {
+			return
+		}
+		to := nw.children[alive[rng.Intn(len(alive))]]
+		for i := len(raws) - 1; i >= 0; i-- { // highest nonce first
+			to.send(&wireMsg{T: "tx", Data: raws[i]})
+		}
+	}
 	// clients resubmit: a transaction whose node died (or that was refused for lack of a leader) is offered
 	// again, also when it was committed long ago - the order layer has to keep it out of a second block
 	resubmit := func(all bool) {
@@ -483,6 +551,10 @@ func ordScenario(w *vlog.W, a *wargs, id int, rng *rand.Rand, viol func(sig, det
 	for time.Now().Before(deadline) {
 		for k := 0; k < 1+rng.Intn(4); k++ {
 			submit()
+		}
+		if rng.Intn(5) == 0 {
+			submitInverted()
+			events["inverted-timestamps"]++
 		}
 		time.Sleep(time.Duration(5+rng.Intn(40)) * time.Millisecond)
 		if rng.Intn(12) == 0 {
